@@ -309,17 +309,42 @@ def r_idx_pair(ck: Checker) -> None:
     look += [c for c in walk_body(d.node.body) if isinstance(c, ast.Subscript) and norm(c.value) == "Source._source_idx_to_source"]
     rk = norm(reads[0].args[0]) if reads else None
     ok = len(w) == 1 and wk == "'idx'" and wv == "Source._sources[self]" and rk == "'idx'" and len(look) >= 1
-    if ok:
-        var = None
-        for st in walk_body(d.node.body):
-            if isinstance(st, ast.Assign) and st.value is reads[0]:
-                var = norm(st.targets[0])
-        keys = {norm(c.args[0]) if isinstance(c, ast.Call) else norm(c.slice) for c in look}
-        # the table is consulted with the value read under the key (directly or through the local holding it); a second lookup
-        # with the registry id of the re-created object is the non-index form
-        direct = {var, norm(reads[0])} - {None}
-        ok = bool(keys & direct) and all(k_ in direct or k_.endswith(".source_registry_id") for k_ in keys)
-    (ck.holds if ok else ck.violation)("R-IDX-PAIR", s, s.node, what, **({} if ok else {"construct": f"writer key {wk} value {wv}; reader key {rk}; lookups {[norm(l)[:50] for l in look]}"}))
+    if not ok:
+        if w and wk is not None and rk is not None and wk != rk:
+            ck.violation("R-IDX-PAIR", s, s.node, what, positive=True, construct=f"writer key {wk}, reader key {rk}")
+        else:
+            raise Unsupported(f"index form not recognised: writer key {wk} value {wv}; reader key {rk}; {len(look)} table lookups", s.node)
+    else:
+        # on every path of the reader, the table is consulted with the value read under the key (index form) or with the registry id of the
+        # re-created object (full form)
+        vp_ = d.node.args.args[1].arg
+        tag_ = f"{vp_}.get('idx')"
+        bad_k = None
+        n_look = 0
+        for lf in decision_tree(strip_docstring(d.node.body), resolve="calls", max_atoms=12):
+            stmts_, rv_ = lf.resolved(calls=True)
+            for x in list(stmts_) + ([ast.Expr(value=rv_)] if rv_ is not None else []):
+                for c in ast.walk(x):
+                    key_ = None
+                    if isinstance(c, ast.Call) and norm(c.func) == "Source._source_idx_to_source.get" and c.args:
+                        key_ = norm(c.args[0])
+                    elif isinstance(c, ast.Subscript) and norm(c.value) == "Source._source_idx_to_source":
+                        key_ = norm(c.slice)
+                    if key_ is None:
+                        continue
+                    n_look += 1
+                    if key_ in (tag_, f"{vp_}['idx']") or key_.endswith(".source_registry_id"):
+                        continue
+                    if key_.startswith(f"{vp_}.get(") or key_.startswith(f"{vp_}["):
+                        bad_k = f"the table is consulted with {key_} (not the value written under 'idx')"
+                    elif bad_k is None:
+                        raise Unsupported(f"Source._deserialize: table lookup with {key_[:60]}", d.node)
+        if bad_k:
+            ck.violation("R-IDX-PAIR", s, s.node, what, positive=True, construct=f"Source._deserialize: {bad_k}")
+        elif not n_look:
+            raise Unsupported("Source._deserialize: no lookup in the index table on any path", d.node)
+        else:
+            ck.holds("R-IDX-PAIR", s, s.node, what, evaluations=n_look)
     stores = sorted([st for st in walk_body(p.node.body) if isinstance(st, ast.Assign) and isinstance(st.targets[0], ast.Subscript)], key=lambda x: x.lineno)
     what = "both source tables are filled together in Source.__post_init__ with the same index"
     ok = len(stores) == 2 and norm(stores[0]) == "Source._sources[self] = len(Source._sources)" \
